@@ -171,7 +171,10 @@ def r07_2_3(ctx: Ctx):
     ctx.check(okl, 'R07.3', init.short, init.loc(), 'the doubling loop runs N times',
               'the radix is not doubled exactly N = numberOfFloatVariables times', key=f'R07.3::{init.short}::n-trips')
     roles = C.roles_of(ctx)
+    init_only = roles.dominated_closure({roles.fq(init)}) | {roles.fq(init) + '@setter'}
     for m in roles.attr_writers(Bf, e.cls):
+        if roles.fq(m.func) in init_only:
+            continue          # a property setter / helper used by the constructor alone
         ctx.fail('R07.3', m.func.short, m.loc(), f'the radix attribute is rewritten outside the constructor: {m.text()}',
                  key=ctx.key_for('R07.3', m.func, m.node))
 
@@ -183,6 +186,9 @@ def _remainder_name(fn: FuncInfo) -> str:
         if isinstance(n, ast.Assign) and len(n.targets) == 1 and isinstance(n.targets[0], ast.Name) and \
                 isinstance(n.value, ast.Name) and n.value.id == pn:
             return n.targets[0].id
+        if isinstance(n, ast.AnnAssign) and isinstance(n.target, ast.Name) and isinstance(n.value, ast.Name) and \
+                n.value.id == pn:
+            return n.target.id
     raise AnalysisError(f'{fn.short}: remainder variable not found')
 
 
